@@ -44,6 +44,10 @@ pub struct Seg {
     pub noise: Option<u16>,
     /// selector into the bound chords (sorted)
     pub chord: u16,
+    /// before the unbound key: a proper prefix (selector, length selector) of a bound chord of
+    /// two or more keys is typed and then abandoned -- the unbound key arrives mid-chord
+    #[serde(default)]
+    pub partial: Option<(u16, u8)>,
 }
 
 #[derive(Clone, Copy, Debug, PartialEq, Eq, Serialize, Deserialize)]
@@ -534,6 +538,9 @@ fn check_stream(ops: &[Op], segs: &[Seg]) -> Outcome {
         return Ok(pass.label("stream/nothing-to-type"));
     }
     let unbound: Vec<K> = (0..POOL + EXTRA).filter(|k| !model.begins_chord(*k)).collect();
+    let foreign: Vec<K> = (0..POOL + EXTRA)
+        .filter(|k| !model.bound.keys().any(|c| c.contains(k)))
+        .collect();
     let bound_desc = || {
         bound
             .iter()
@@ -543,11 +550,35 @@ fn check_stream(ops: &[Op], segs: &[Seg]) -> Outcome {
     // `state` is the caller-managed chord vector of lookup_state; idle = empty
     let mut state: Vec<Key> = Vec::new();
     let (mut plain, mut noisy, mut multi, mut noise_inside) = (0, 0, 0, 0);
+    let (mut partials, mut partials_long) = (0, 0);
     for (si, seg) in segs.iter().enumerate() {
         let (chord, value) = *pick(seg.chord, &bound);
-        let noise = seg.noise.map(|n| *pick(n, &unbound));
+        let mut noise = seg.noise.map(|n| *pick(n, &unbound));
+        let mut abandoned = String::new();
         // lookup_state: idle is defined by the empty vector, so make it so
         state.clear();
+        // an abandoned partial chord in front of the unbound key: the unbound key is then taken
+        // from the keys that occur in no bound chord at all, so that it cannot complete or
+        // continue the abandoned chord
+        if let (Some(n), Some((csel, plen))) = (seg.noise, seg.partial) {
+            let long: Vec<&Vec<K>> = bound.iter().map(|(c, _)| *c).filter(|c| c.len() >= 2).collect();
+            if !long.is_empty() && !foreign.is_empty() {
+                let pc = *pick(csel, &long);
+                let plen = 1 + plen as usize % (pc.len() - 1);
+                for k in &pc[..plen] {
+                    guard_val(|| {
+                        map.lookup_state(&mut state, key_of(*k));
+                    })?;
+                    guard_val(|| {
+                        handler.handle(key_of(*k));
+                    })?;
+                }
+                noise = Some(*pick(n, &foreign));
+                abandoned = show(&pc[..plen].to_vec());
+                partials += 1;
+                partials_long += (plen >= 2) as usize;
+            }
+        }
         if let Some(u) = noise {
             guard_val(|| {
                 map.lookup_state(&mut state, key_of(u));
@@ -570,6 +601,10 @@ fn check_stream(ops: &[Op], segs: &[Seg]) -> Outcome {
                     format!(
                         "segment {si}: {}typing bound chord [{}] (value {value}) from idle, key #{i} ({:?}) via {api} returned {:?}; bound chords {:?}; earlier segments {:?}",
                         match noise {
+                            Some(u) if !abandoned.is_empty() => format!(
+                                "after the abandoned partial chord [{abandoned}] and the unbound key {:?}, ",
+                                key_of(u)
+                            ),
                             Some(u) => format!("after the unbound key {:?}, ", key_of(u)),
                             None => String::new(),
                         },
@@ -608,6 +643,8 @@ fn check_stream(ops: &[Op], segs: &[Seg]) -> Outcome {
         .label_if(noisy > 0, "stream/unbound-key-then-chord")
         .label_if(multi > 0, "stream/multi-key-chord")
         .label_if(noise_inside > 0, "stream/unbound-key-occurs-inside-the-chord")
+        .label_if(partials > 0, "stream/abandoned-partial-chord-then-unbound-key")
+        .label_if(partials_long > 0, "stream/abandoned-partial-chord-of-2+-keys-then-unbound-key")
         .label_if(hist.nontrivial(), "stream/history-with-supersession");
     Ok(pass)
 }
@@ -779,8 +816,12 @@ fn ops_strategy() -> BoxedStrategy<Vec<Op>> {
 }
 
 fn seg_strategy() -> BoxedStrategy<Seg> {
-    (proptest::option::weighted(0.5, any::<u16>()), any::<u16>())
-        .prop_map(|(noise, chord)| Seg { noise, chord })
+    (
+        proptest::option::weighted(0.5, any::<u16>()),
+        any::<u16>(),
+        proptest::option::weighted(0.5, (any::<u16>(), any::<u8>())),
+    )
+        .prop_map(|(noise, chord, partial)| Seg { noise, chord, partial: noise.and(partial) })
         .boxed()
 }
 
@@ -1024,7 +1065,7 @@ impl Property for C18 {
 
     fn rule(&self) -> String {
         "generated, weights 5:5:50 — (Map) histories vec(register(chord of 0..=4 keys from a pool of 6 keys that share names and differ in modifiers) | register_override(other map built from 0..6 registrations), 0..12) with a distinct value per registration; after EVERY step all 1554 non-empty chords of length <=4 over the pool are looked up and for_each is compared with a dictionary model, and the return value of register is compared with what its doc comment promises; non-trivial = some registration superseded a bound proper prefix or bound extensions. \
-         (Stream) the same histories on KeyMap and KeyMapHandler, then 0..8 segments typed key by key through lookup_state (state vector emptied first) and KeyMapHandler::handle (chained): a bound chord, optionally preceded by one key that begins no bound chord (from the pool or two keys never registered); non-trivial = a multi-key chord or an unbound key was typed. \
+         (Stream) the same histories on KeyMap and KeyMapHandler, then 0..8 segments typed key by key through lookup_state (state vector emptied first) and KeyMapHandler::handle (chained): a bound chord, optionally preceded by one key that begins no bound chord (from the pool or two keys never registered), that key optionally preceded by an abandoned proper prefix of a bound chord (the key is then one that occurs in no bound chord); non-trivial = a multi-key chord or an unbound key was typed. \
          (Parse) strings for FromStr of Key / KeyChord / KeyName: grammar-shaped (modifier and name tokens in mixed case, f+1..30 digits incl. usize::MAX and usize::MAX+1, quoted characters, characters whose lowercase changes byte length such as İ ẞ ǅ K, attributes joined by '+', keys joined by 1..3 spaces/tab/NBSP, leading/trailing spaces), the same with one arbitrary character inserted or replaced, and arbitrary Unicode strings; non-trivial = the string was accepted, so the print/parse round trip ran. \
          sweep: (a) every history of 4 registrations over the 14 chords of length <=3 over 2 keys (38416 histories, all 30 chords of length <=4 looked up after every step); (b) every Unicode scalar value c in the strings c, c+\"1\", \"f\"+c, \"ctrl+\"+c, for all three parsers".into()
     }
